@@ -39,7 +39,7 @@ def parseInv (req : Json) : Except String Inv := do
     | "none" => pure Target.none | "sympy" => pure Target.sympy | "casadi" => pure Target.casadi
     | o => throw s!"bad target {o}"
   let paths ← (← getArr req "paths").toList.mapM parsePath
-  let opts ← (← getArr req "options").toList.mapM (·.getStr?)
+  let opts ← (← getArr req "options").toList.mapM (·.getBool?)
   let models ← (← getArr req "models").toList.mapM parseModel
   pure { argparse := ap, target := tg, outdirOk := ← getBool req "outdir_ok", paths := paths,
          options := opts, models := models }
